@@ -152,6 +152,17 @@ CLAIMS = {
         note=NOTE_BASE,
         technique="static analysis: sibling-agreement on extracted operation DAGs + constructor-dominance rules",
     ),
+    "C18": dict(
+        category="other",
+        text="Static check that bulk routines are their single-item counterparts by construction: single quantile = bulk with one request + "
+             "index_axis_move(axis,0); 1-D wrappers = axis forms at Axis(0); per-axis weighted sum/mean/var/std map operation-identical "
+             "kernels with the caller's arguments; central_moment and central_moments share canonical shifted moments, correction term, "
+             "prefix ..=k and kernels; the unchecked bulk selection always receives a sorted+deduped vector; j-th output ↔ j-th q with "
+             "matching push/lookup predicates. Does not decide that a bulk selection returns for each index what a single selection would.",
+        design_ref="DESIGN.md §4 C18",
+        note=NOTE_BASE,
+        technique="static analysis: delegation table, canonical-form equality of sibling pipelines, typestate of the index vector",
+    ),
 }
 
 PENDING = "not yet claimed in this revision: the static rule set for it is still being implemented (see DESIGN.md §8); no check is registered rather than a weak one"
